@@ -400,8 +400,14 @@ def schmidt_ranks(M, d, L, rtol=1e-10):
 # construction of pytenet objects from descriptors
 
 def build_chains(chains):
+    """the caller fills the same two scratch lists for every chain and overwrites them afterwards (a chain owns copies)"""
     import pytenet as ptn
-    return [ptn.OpChain(list(o), list(q), c, s) for o, q, c, s in chains]
+    out = []; so = []; sq = []
+    for o, q, c, s in chains:
+        so[:] = list(o); sq[:] = list(q)
+        out.append(ptn.OpChain(so, sq, c, s))
+    so[:] = [-7] * len(so); sq[:] = [123] * len(sq)
+    return out
 
 
 def build_tree_node(nd):
